@@ -5,7 +5,7 @@ with limits `cl` (count) and `ll` (value length); `observe` is what WalkAttribut
 DroppedAttributes show.  Every theorem holds for ALL limit pairs and ALL scripts; the conclusions are the
 Spec predicates the driver evaluates on the implementation's observations.
 -/
-import Otel.C17.Lemmas
+import Otel.C17.Script
 namespace Otel.C17
 open Otel Otel.C17.Spec
 
@@ -109,18 +109,56 @@ theorem shallow_copy_not_independent :
     let c := hCopy s
     beqKVs (load (hRun c [Op.add [([6], .int 9)]]).1 s.2).attrs (load s.1 s.2).attrs = false := by decide
 
-/-! ### stated, not proved (checked by the oracle on every observed record; listed in checks/C17.json) -/
+/-- "with the value supplied last": every value held is `limitVal ll` (reference truncation of every string,
+top-level or nested; nested maps de-duplicated, last value wins) of the value offered last for its key since
+the last SetAttributes — whether the key was new in that call, overwrote an inline or an overflow attribute,
+or was offered several times in one call -/
+theorem rec_last_value (cl ll : Int) (ops : List Op) : lastValue ll ops (observe (run cl ll ops)) = true := by
+  have h := run_lv cl ll ops
+  unfold LV at h
+  rw [(run_limits cl ll ops).2] at h
+  simp only [lastValue, observe, List.all_eq_true]
+  intro a ha
+  obtain ⟨v, hv, he⟩ := h a ha
+  rw [hv, he]
+  exact LogVal.beq_refl _
 
-/-- "with the value supplied last": every value held is `limitVal ll` of the value offered last for its key
-since the last SetAttributes.  Missing lemmas: `(applyVal ll v).1 = limitVal ll v` (needs `dedup = dedupRef`
-on lists) and the value half of the merge-loop invariant. -/
-def rec_last_value_statement : Prop :=
-  ∀ (cl ll : Int) (ops : List Op), lastValue ll ops (observe (run cl ll ops)) = true
+/-- the limiter is the reference function on values, and the number of nested map entries it reports as
+dropped is the reference count: `applyValueLimits` = (`limitVal`, `nestedDups`) for every value and limit -/
+theorem limit_value_is_reference (ll : Int) (v : LogVal) : applyVal ll v = (limitVal ll v, nestedDups v) := by
+  rw [← applyVal_fst, ← applyVal_snd ll v]
 
-/-- the accounting equation with the nested term computed from the script alone (`nestedWritten`) instead of
-the model's ghost counter; missing lemma: `(run cl ll ops).nested = nestedWritten cl ops`. -/
-def rec_accounting_exact_statement : Prop :=
-  ∀ (cl ll : Int) (ops : List Op), accounting cl ops (observe (run cl ll ops)) = true
+/-- "attribute count plus dropped count equals the number of attributes offered" since the last
+SetAttributes, plus the nested map entries de-duplicated away inside the values actually written — that
+term computed from the script alone (`Spec.nestedWritten`), not from the model's ghost counter -/
+theorem rec_accounting_exact (cl ll : Int) (ops : List Op) : accounting cl ops (observe (run cl ll ops)) = true := by
+  have h := rec_accounting cl ll ops
+  rw [run_nested] at h
+  exact h
+
+/-- the statement's equation as worded (count + dropped = offered, nothing else) holds exactly when no value
+written since the last SetAttributes lost a nested map entry to de-duplication (`nestedWritten = 0`) -/
+theorem rec_accounting_plain_iff (cl ll : Int) (ops : List Op) :
+    accountingPlain ops (observe (run cl ll ops)) = true ↔ nestedWritten cl ops = 0 := by
+  have h1 := rec_accounting_exact cl ll ops
+  simp only [accounting, accountingPlain, beq_iff_eq] at h1 ⊢
+  omega
+
+/-- the weaker two-sided form of the accounting clause that needs no knowledge of which values were written:
+offered ≤ count + dropped ≤ offered + nested duplicates of everything offered -/
+theorem rec_accounting_bounds (cl ll : Int) (ops : List Op) : accountingBounds ops (observe (run cl ll ops)) = true := by
+  have h1 := rec_accounting_exact cl ll ops
+  have h2 := nestedWritten_le_offered cl ops
+  simp only [accounting, accountingBounds, beq_iff_eq, Bool.and_eq_true, decide_eq_true_eq] at h1 ⊢
+  omega
+
+/-- all clauses about one record at once: the predicate the driver evaluates on every observed record
+(`Spec.recordOK`) holds of the model for every pair of limits and every script -/
+theorem rec_all_clauses (cl ll : Int) (ops : List Op) : recordOK cl ll ops (observe (run cl ll ops)) = true := by
+  simp only [recordOK, Bool.and_eq_true]
+  exact ⟨⟨⟨⟨⟨⟨rec_keys_unique cl ll ops, rec_count_bound cl ll ops⟩, rec_earliest_kept cl ll ops⟩,
+    rec_last_value cl ll ops⟩, rec_strings_bounded cl ll ops⟩, rec_accounting_exact cl ll ops⟩,
+    rec_accounting_bounds cl ll ops⟩
 
 /-! non-vacuity: a script that overwrites an inline and an overflow attribute, reaches the count limit in
 the middle of a call and truncates a nested string -/
@@ -129,5 +167,15 @@ example :
                 Op.add [([6], .str [0x61, 0xC5, 0xA1, 0x62]), ([1], .slice [.str [0x61, 0x62, 0x63]]), ([7], .int 7), ([8], .int 8)]]
     beqKVs (run 7 2 ops).attrs [([1], .slice [.str [0x61, 0x62]]), ([2], .int 2), ([3], .int 3), ([4], .int 4), ([5], .int 5),
                            ([6], .str [0x61, 0xC5, 0xA1]), ([7], .int 7)] = true ∧ (run 7 2 ops).dropped = 3 := by decide
+
+/-! non-vacuity for the two clauses above: a key offered twice in one call and again in a later call (inline
+overwrite), a nested map with duplicate keys written (counted: 1) and one cut by the count limit (not counted) -/
+example :
+    let ops := [Op.set [([1], .int 1), ([2], .str [0x61, 0x62, 0x63]), ([1], .int 5)],
+                Op.add [([2], .map [([7], .int 1), ([7], .str [0x61, 0x62, 0x63]), ([8], .int 2)]),
+                        ([3], .int 3), ([4], .map [([9], .int 1), ([9], .int 2)])]]
+    beqKVs (run 3 2 ops).attrs [([1], .int 5), ([2], .map [([7], .str [0x61, 0x62]), ([8], .int 2)]), ([3], .int 3)] = true ∧
+    lastValue 2 ops (observe (run 3 2 ops)) = true ∧ nestedWritten 3 ops = 1 ∧ nestedOffered ops = 2 ∧
+    (run 3 2 ops).dropped = 4 ∧ accounting 3 ops (observe (run 3 2 ops)) = true := by decide
 
 end Otel.C17
